@@ -683,7 +683,17 @@ func (a *Scale) doFunc(fn *ssa.Function) {
 						if _, e, ok := a.C(ia.X, fn); ok {
 							if v, ok := a.V(x); ok {
 								a.curRole = "load " + containerRole(ia.X)
-								a.union(v, e, 0, "element load at "+where)
+								if rs, isRs := inPlaceRescale(fn)[rescaleRoot(ia.X)]; isRs && rs.cell && rs.loads[x] {
+									// the variable's list is converted in place up front (xs[i] >>= 3) and the variable stands for
+									// the converted list: the load that feeds the conversion sees the old unit
+									a.union(v, e, -rs.c, "element load (feeding the in-place conversion of the list) at "+where)
+								} else if isRs && !rs.cell && !rs.loads[x] {
+									// the list was converted in place up front (xs[i] >>= 3): what is read from it afterwards
+									// is counted in the new unit
+									a.union(v, e, rs.c, "element load (after the in-place conversion of the list) at "+where)
+								} else {
+									a.union(v, e, 0, "element load at "+where)
+								}
 							}
 						}
 					} else if t, ok := a.cellFor(x.X, fn); ok {
@@ -695,6 +705,9 @@ func (a *Scale) doFunc(fn *ssa.Function) {
 				}
 			case *ssa.Store:
 				if ia, ok := x.Addr.(*ssa.IndexAddr); ok {
+					if rs, isRs := inPlaceRescale(fn)[rescaleRoot(ia.X)]; isRs && rs.stores[x] {
+						break // the in-place conversion itself: relates the old element to the new one through its own shift
+					}
 					if _, e, ok := a.C(ia.X, fn); ok {
 						if v, ok := a.V(x.Val); ok {
 							a.curRole = "store " + containerRole(ia.X)
@@ -703,6 +716,14 @@ func (a *Scale) doFunc(fn *ssa.Function) {
 					}
 				} else if t, ok := a.cellFor(x.Addr, fn); ok {
 					a.curRole = "store " + containerRole(x.Addr)
+					if rs, isRs := inPlaceRescale(fn)[x.Addr]; isRs && rs.cell {
+						// the list assigned here is the one the up-front conversion then rewrites in place
+						if i, e, ok := a.C(x.Val, fn); ok {
+							a.union(i, t[1], 0, "store at "+where)
+							a.union(t[2], e, rs.c, "store (list converted in place afterwards) at "+where)
+						}
+						break
+					}
 					a.flow(x.Val, t, fn, "store at "+where)
 				}
 			case *ssa.IndexAddr:
@@ -1028,4 +1049,89 @@ func ReportScale(w *World, r *Report, fnNames ...string) {
 	r.Units["scale_integer_values"] = s.NValues
 	r.Units["scale_values_with_unit"] = s.NScaled
 	r.Units["scale_conflicts_whole_module"] = len(s.Conflicts)
+}
+
+// inPlaceRescale: containers of fn whose every element is converted to another unit in place by a dedicated statement
+// xs[i] = xs[i] >> c (c in {3,6,7}; or << c): the loads that feed the conversion see the old unit, every other load of
+// the container the new one. c is the exponent difference new - old.
+type rescaleInfo struct {
+	c      int
+	cell   bool // the container is a local variable's cell: the variable stands for the converted list
+	loads  map[*ssa.UnOp]bool
+	stores map[*ssa.Store]bool
+}
+
+var rescaleCache = map[*ssa.Function]map[ssa.Value]*rescaleInfo{}
+
+func inPlaceRescale(fn *ssa.Function) map[ssa.Value]*rescaleInfo {
+	if m, ok := rescaleCache[fn]; ok {
+		return m
+	}
+	m := map[ssa.Value]*rescaleInfo{}
+	rescaleCache[fn] = m
+	eachInstr(fn, func(ins ssa.Instruction) {
+		st, ok := ins.(*ssa.Store)
+		if !ok {
+			return
+		}
+		ia, ok := st.Addr.(*ssa.IndexAddr)
+		if !ok {
+			return
+		}
+		var x ssa.Value
+		c, down := 0, false
+		if y, k, ok := asShiftRight(st.Val); ok {
+			x, c, down = y, k, true
+		} else if y, k, ok := asShiftLeft(st.Val); ok {
+			x, c = y, k
+		}
+		if x == nil || unitConv(c) == 0 {
+			return
+		}
+		ld, ok := stripConv(x).(*ssa.UnOp)
+		if !ok || ld.Op != token.MUL {
+			return
+		}
+		ia2, ok := ld.X.(*ssa.IndexAddr)
+		if !ok || ia2.X != ia.X || ia2.Index != ia.Index {
+			return
+		}
+		root := rescaleRoot(ia.X)
+		ri := m[root]
+		if ri == nil {
+			ri = &rescaleInfo{loads: map[*ssa.UnOp]bool{}, stores: map[*ssa.Store]bool{}}
+			if al, ok := root.(*ssa.Alloc); ok {
+				// exactly one assignment of the variable, in this function
+				n := 0
+				for _, r := range *al.Referrers() {
+					if s, ok := r.(*ssa.Store); ok && s.Addr == ssa.Value(al) {
+						n++
+					}
+				}
+				if n != 1 || al.Parent() != fn {
+					return
+				}
+				ri.cell = true
+			}
+			m[root] = ri
+		}
+		if down {
+			ri.c = c
+		} else {
+			ri.c = -c
+		}
+		ri.loads[ld] = true
+		ri.stores[st] = true
+	})
+	return m
+}
+
+// rescaleRoot: the local variable a container value is read from, else the value itself.
+func rescaleRoot(v ssa.Value) ssa.Value {
+	if u, ok := v.(*ssa.UnOp); ok && u.Op == token.MUL {
+		if al, ok := u.X.(*ssa.Alloc); ok {
+			return al
+		}
+	}
+	return v
 }
